@@ -301,6 +301,39 @@ def run(chk: common.Check):
         if d:
             found.append(("insertion-code-twins-conflated:created", f"{n} with {desc}: {d}", {"case": n, "relabelling": desc, "first_difference": d,
                                                                                              "pdb_text": t3 if len(t3) < 250000 else None}))
+    # ---- labels quoted in OPTIONS are relabelled together with the structure: chain selection (incl. a chain renamed to the blank identifier) and a
+    #      --titrate_only list naming insertion-code twins
+    hp = "\n".join(l for l in structures.read("1HPX.pdb").splitlines() if l[17:20] != "HOH") + "\n"
+    try:
+        base_n = numbers(structures.run(hp, ["-c", "A", "-c", "B"])[0])
+        for what_c, cmap, copts in (("chain B renamed to the blank identifier, selected with -c ' '", {"B": " "}, ["-c", "A", "-c", " "]),
+                                    ("chains renamed to P / Q, selected with -c P -c Q", {"A": "P", "B": "Q"}, ["-c", "P", "-c", "Q"])):
+            chk.count(1, key=("chain-option", what_c))
+            d = first_diff(base_n, numbers(structures.run(relabel(hp, cmap), copts)[0]))
+            if d:
+                found.append(("labels-influence-numbers:chain-option", f"1HPX.pdb -c A -c B vs {what_c}: {d}", {"case": "1HPX.pdb", "relabelling": what_c, "options": copts}))
+    except Exception as ex:   # noqa: BLE001
+        found.append(("crash-after-relabelling", f"1HPX.pdb with chain options: {type(ex).__name__}: {ex}", {"case": "1HPX.pdb"}))
+    sg = "\n".join(l for l in structures.read("3SGB-subset.pdb").splitlines() if l[17:20] != "HOH") + "\n"
+    tw_res = {}
+    for r in structures.residues(sg):
+        if r["tag"] == "ATOM  ":
+            tw_res.setdefault((r["chain"], r["num"]), []).append(r)
+    tw_keys = [(r["chain"], r["num"].strip(), r["icode"].strip()) for v in tw_res.values() if len(v) > 1 for r in v]
+    if tw_keys:
+        lst = ",".join(f"{c}:{n}{i}" for c, n, i in tw_keys)
+        mol_t, _ = structures.run(sg, ["-i", lst])
+        # the same residues after renumbering in file order (every residue gets its own number)
+        order = [(r["chain"], r["num"].strip(), r["icode"].strip()) for r in structures.residues(sg)]
+        newnum = {k: i + 1 for i, k in enumerate(order)}
+        lst2 = ",".join(f"{c}:{newnum[(c, n, i)]}" for c, n, i in tw_keys)
+        mol_r, _ = structures.run(renumber_file_order(sg), ["-i", lst2])
+        chk.count(1, key=("titrate-only-twins",))
+        t1 = [g.type for g in mol_t.conformations[mol_t.conformation_names[0]].groups if g.titratable]
+        t2 = [g.type for g in mol_r.conformations[mol_r.conformation_names[0]].groups if g.titratable]
+        if t1 != t2:
+            found.append(("labels-influence-numbers:titrate-only-twins", f"3SGB-subset --titrate_only {lst}: {len(t1)} groups titrate ({t1}); after renumbering in file order, with the list "
+                          f"translated ({lst2}): {len(t2)} ({t2})", {"case": "3SGB-subset.pdb", "list": lst, "renumbered_list": lst2}))
     chk.sample({"structures": names})
     uniq = {}
     for sig, what, rep in found:
